@@ -207,6 +207,12 @@ def _gen_slp_tensor(rng, case, big):
     V = rng.randint(1, 5)
     if rng.random() < 0.04:
         shape[dim] = 0
+    elif rng.random() < 0.08:
+        # a sequence dimension far longer than anything else in the workload, few other entries
+        shape = [1 if j != dim else rng.choice([130, 300]) for j in range(nd)]
+        if nd >= 2:
+            shape[(dim + 1) % nd] = 2
+        case["long_sequence"] = True
     eos = rng.choice([None, None, rng.randrange(V), rng.randrange(V), V, V + 2, -1, -2])
     lo, hi = (-2, V + 1) if rng.random() < 0.6 else (0, V - 1)
 
@@ -302,6 +308,8 @@ def _gen_dist(rng, case, big):
 def _gen_greedy(rng, case, big):
     ties = case["class"] == "greedy_ties"
     T, N, V = rng.randint(0 if rng.random() < 0.05 else 1, 7), rng.randint(1, 4), rng.randint(1, 5)
+    if not ties and rng.random() < 0.07:
+        T, N = rng.choice([130, 300]), rng.randint(1, 2)  # far longer than anything else in the workload
     blank = rng.randint(-V, V - 1)
     is_probs = rng.random() < 0.4
     lens = None
